@@ -318,7 +318,11 @@ class BalWorld(object):
     while live < st['c']:
       self.cid += 1
       cid = 's%d' % self.cid
-      op = {'svc': st['svc'], 'kind': 'ok'}
+      svc = st['svc']
+      if st.get('spread'):
+        # service times spread around the mean so that completions do not stay in lock step
+        svc = svc * st['rng'].uniform(0.4, 1.6)
+      op = {'svc': svc, 'kind': 'ok'}
       c = self.tracker.issue(self.disp, cid, 'm', (cid,), timeout=30.0, spec=op)
       c.extra['steady'] = True
       st['calls'].append(c)
@@ -326,7 +330,9 @@ class BalWorld(object):
 
   def run_steady(self, op):
     ap = self.cfg['aperture']
-    self.steady = {'c': op['c'], 'until': CLOCK.now + op['dur'], 'svc': op['svc'], 'calls': []}
+    import random as _random
+    self.steady = {'c': op['c'], 'until': CLOCK.now + op['dur'], 'svc': op['svc'], 'calls': [],
+                   'spread': op.get('spread', False), 'rng': _random.Random('steady/%s' % self.scn['seed'])}
     self.steady_refill()
     gevent.sleep(op['dur'] - 0.5)
     # evaluate while traffic is still flowing
@@ -336,8 +342,12 @@ class BalWorld(object):
     idle = len(self.lb._idle_endpoints)
     healthy = len([n for n in nodes if n.channel.state <= ChannelState.Busy])
     sig = {'c': c, 'a': a}
+    import math
+    # the smoothed load has reached this fraction of the steady level by now
+    # (5 s window, starting from no traffic)
+    reached = 1.0 - math.exp(-(op['dur'] - 0.5) / 5.0)
     if a > 0:
-      if (c - 1) / float(a) > 1.1 * ap['max_load'] and idle > 0 and a < ap['max_size']:
+      if (c - 1) / float(a) * reached > 1.1 * ap['max_load'] and idle > 0 and a < ap['max_size']:
         REC.violation('C06', 'should_have_grown',
                       '%d calls held in flight for %.0f s over %d active members (load >= %.2f > max_load %.2f) with %d idle members and max_size %d' % (
                         c, op['dur'], a, (c - 1) / float(a), ap['max_load'], idle, ap['max_size']), {})
